@@ -37,7 +37,7 @@ ORDERS = ["earlier_eval", "same_before", "same_before", "same_after", "same_afte
 STORES = [("memory", None), ("local", None), ("local-lru", 2)]
 
 
-def build(placement, order, producer, noise, multi):
+def build(placement, order, producer, noise, multi, kwarg=False):
     """Returns (prog, root index, producer entry index)."""
     funcs = []
     vars_ = [{"name": "VS", "mod": 0, "val": 1}, {"name": "VX", "mod": 0, "val": "x"}]
@@ -71,11 +71,11 @@ def build(placement, order, producer, noise, multi):
         reader_kept = None
     elif placement == "inline_arg":
         fmt = add("fmt", [["ext", 1]], params=[["x", M.NO]])
-        read_stmt = ["call", fmt, "bare", [["iload", "/src/v"]]]
+        read_stmt = ["call", fmt, "bare", [["iload", "/src/v", "kw" if kwarg else "pos"]]]
         reader_kept = None
     elif placement == "kept_inline_arg":
         fmt = add("fmt", [["ext", 1]], params=[["x", M.NO]])
-        r = add("rd", [["var", 1], ["call", fmt, "bare", [["iload", "/src/v"]]]], data="/rd")
+        r = add("rd", [["var", 1], ["call", fmt, "bare", [["iload", "/src/v", "kw" if kwarg else "pos"]]]], data="/rd")
         read_stmt = ["call", r, "bare", []]
         reader_kept = "rd"
     elif placement == "kept":
@@ -133,7 +133,7 @@ def case_strategy():
                 steps.append(["eval_prod"])
             steps.append(["eval_root"])
         return {"placement": placement, "order": order, "producer": producer, "noise": noise, "multi": multi,
-                "store": [kind, cache], "steps": steps, "inproc": draw(st.booleans())}
+                "store": [kind, cache], "steps": steps, "inproc": draw(st.booleans()), "kwarg": draw(st.booleans())}
 
     return gen()
 
@@ -143,7 +143,7 @@ def check_case(case, ev=None, scratch=None):
     scratch = scratch or common.Scratch("vf-c09")
     kind, cache = case["store"]
     sess = Session(scratch, kind, cache)
-    prog, root, p_entry, reader_kept = build(case["placement"], case["order"], case["producer"], case["noise"], case["multi"])
+    prog, root, p_entry, reader_kept = build(case["placement"], case["order"], case["producer"], case["noise"], case["multi"], case.get("kwarg", False))
     order = case["order"]
     committed = {}
     seen_by_reader = set()
